@@ -1,7 +1,9 @@
 package txn
 
 import (
+	"fmt"
 	"testing"
+	"verif/harness/stats"
 
 	"verif/harness/txh"
 )
@@ -39,4 +41,82 @@ func TestC11_Regress_AddedThenRemovedOnActiveStore(t *testing.T) {
 			}
 		}
 	}
+}
+
+// TestC11_Regress_FailedCommitOnActiveStore: an actively persisted store writes an added or updated item's value
+// blob at the time of the operation. On the pinned tree a commit that failed before its "commit tracked values"
+// step (a refused lock, a failing log write) rolled back without removing those blobs (fixed in /repo).
+func TestC11_Regress_FailedCommitOnActiveStore(t *testing.T) {
+	for _, pl := range []int{3, 4} {
+		h := txh.History{HashMod: 2, UUIDSeed: 9, Stores: []txh.StoreOpts{{Name: "st0", Slot: 4, Unique: true, Placement: pl}},
+			Txns: []txh.TxnProg{
+				{Mode: 1, End: "commit", Ops: []txh.Op{{Kind: "add", K: 1, Tag: "s"}, {Kind: "add", K: 2, Tag: "s2"}}},
+				{Mode: 1, End: "commit", Ops: []txh.Op{{Kind: "add", K: 3, Tag: "a", Size: 10}, {Kind: "update", K: 1, Tag: "b", Size: 10}}},
+			}}
+		e, pre, err := prepare(h, 1)
+		if err != nil {
+			t.Fatalf("%v", err)
+		}
+		_, dry, _ := runVictim(e, h, 1, pre, nil)
+		e.Cleanup()
+		for k := 0; k < dry.CommitCall; k++ {
+			site := dry.Trace[k].Comp + "." + dry.Trace[k].Method
+			if site == "Registry.Add" || site == "BlobStore.Add" || dry.Trace[k].Comp == "L2" && (dry.Trace[k].Method == "GetStructs" || dry.Trace[k].Method == "SetStructs") {
+				continue // other recorded findings
+			}
+			e, pre, err := prepare(h, 1)
+			if err != nil {
+				t.Fatalf("%v", err)
+			}
+			_, out, _ := runVictim(e, h, 1, pre, &faultPlan{K: k, K2: -1})
+			r := txh.ReadDisk(e.Dir)
+			ov := r.OrphanValuesOf(true)
+			e.Cleanup()
+			if !out.Committed && len(ov) > 0 {
+				t.Fatalf("%s store, commit failed at call %d (%s): %v", txh.PlacementNames[pl], k, out.Site, ov)
+			}
+		}
+	}
+}
+
+// TestC11_Known_FailedStepLeavesItsPartialWrites: minimal reproduction of the recorded finding: a commit that splits
+// a leaf fails at the blob write of its added nodes; their registry entries, created one call earlier, stay.
+func TestC11_Known_FailedStepLeavesItsPartialWrites(t *testing.T) {
+	h := txh.History{HashMod: 1, UUIDSeed: 3, Stores: []txh.StoreOpts{{Name: "st0", Slot: 2, Unique: true, Placement: 0}},
+		Txns: []txh.TxnProg{
+			{Mode: 1, End: "commit", Ops: []txh.Op{{Kind: "add", K: 10, Tag: "a"}, {Kind: "add", K: 20, Tag: "b"}}},
+			{Mode: 1, End: "commit", Ops: []txh.Op{{Kind: "add", K: 11, Tag: "c"}, {Kind: "add", K: 12, Tag: "d"}, {Kind: "add", K: 13, Tag: "e"}}},
+		}}
+	e, pre, err := prepare(h, 1)
+	if err != nil {
+		t.Fatalf("%v", err)
+	}
+	_, dry, _ := runVictim(e, h, 1, pre, nil)
+	e.Cleanup()
+	k := -1
+	for i, s := range dry.Trace {
+		if s.Comp == "Registry" && s.Method == "Add" && i+1 < len(dry.Trace) && dry.Trace[i+1].Comp == "BlobStore" && dry.Trace[i+1].Method == "Add" {
+			k = i + 1
+			break
+		}
+	}
+	if k < 0 {
+		t.Skip("the commit adds no node")
+	}
+	e, pre, err = prepare(h, 1)
+	if err != nil {
+		t.Fatalf("%v", err)
+	}
+	defer e.Cleanup()
+	_, out, _ := runVictim(e, h, 1, pre, &faultPlan{K: k, K2: -1})
+	o := txh.ReadDisk(e.Dir).Orphans()
+	if out.Committed || len(o) == 0 {
+		return
+	}
+	what := fmt.Sprintf("a commit that adds nodes fails at %s, right after Registry.Add registered them: the rollback skips the step in progress (committedState > commitAddedNodes is false) and leaves %v", out.Site, o)
+	if stats.Known("C11", "failed-commit-step-in-progress-not-undone") {
+		stats.For("C11").KnownFinding(what)
+		return
+	}
+	t.Fatalf("%s", what)
 }
